@@ -755,7 +755,13 @@ impl<'e> Body<'e> {
                 self.labels.pop();
                 self.emit(I::End)
             }
-            13 if !deep => self.br_table(depth),
+            13 if !deep => {
+                if self.rng.chance(1, 3) {
+                    self.valued_br_table(depth)
+                } else {
+                    self.br_table(depth)
+                }
+            }
             14 if !deep && self.env.p.multi_value => self.multi_value_block(depth),
             15 if self.env.p.bulk => self.bulk(depth),
             16 if self.env.p.refs => self.table_stmt(depth),
@@ -900,6 +906,22 @@ impl<'e> Body<'e> {
                 self.emit(I::Nop);
             }
         }
+    }
+
+    /// `br_table` whose labels carry a value: `block (result t) <t> <i32> br_table 0* 0 end`, with zero to a few
+    /// targets (all the same label).  The selector sits ON TOP of the carried value.
+    fn valued_br_table(&mut self, depth: u32) {
+        let vts = self.val_types();
+        let t = *self.rng.pick(&vts);
+        self.emit(I::Block(BlockType::Result(t)));
+        self.labels.push(vec![t]);
+        self.expr(t, depth + 1);
+        self.expr(VT::I32, depth + 1);
+        let n = *self.rng.pick(&[0usize, 0, 1, 3]);
+        self.emit(I::BrTable(vec![0u32; n].into(), 0));
+        self.labels.pop();
+        self.emit(I::End);
+        self.emit(I::Drop);
     }
 
     fn multi_value_block(&mut self, depth: u32) {
